@@ -14,6 +14,7 @@ package main
 import (
 	"bytes"
 	"context"
+	"flag"
 	"fmt"
 	"os"
 	"path/filepath"
@@ -431,6 +432,13 @@ func (e *env) execStage(f []string) (string, string) {
 	filtered, sigs, recv, err := e.ep.Stage(append([]string(nil), paths...), digests)
 
 	wellFormed := !e.ro && len(paths) == len(digests) && len(paths) > 0
+	if e.ro && (err == nil || !strings.Contains(err.Error(), "read-only")) {
+		// C02: a one-way alpha (read-only) endpoint refuses every Stage, whatever the arguments
+		e.bad("readonly-stage", "Stage on a read-only endpoint answered %v", err)
+	}
+	if e.ro && !sameWalk(now, walk(e.root)) {
+		e.bad("readonly-stage", "Stage on a read-only endpoint changed the root")
+	}
 	res := ""
 	switch {
 	case err == nil:
@@ -655,6 +663,10 @@ func (e *env) execTransition(op, arg string) (string, string) {
 		e.count(res)
 	}
 
+	if e.ro && res != "tr:err:ro" {
+		// C02: a one-way alpha (read-only) endpoint refuses every Transition, whatever the call state
+		e.bad("readonly-transition", "Transition on a read-only endpoint answered %s", res)
+	}
 	if !e.ro {
 		if !e.okScanSinceTrans {
 			if res != "tr:err:noscan" {
@@ -1032,7 +1044,7 @@ func runGenerated(r *hx.Rand, id int) (res result) {
 	default:
 		cfgMax = 1000 + uint64(r.Intn(1000))
 	}
-	ro := r.Chance(1, 25)
+	ro := r.Chance(1, 25) || *roOnly
 	e := newEnv(id, cfgMax, ro, listing(rootW))
 	defer e.close()
 	defer func() { res.counts = e.counts }()
@@ -1108,6 +1120,10 @@ func protect(fallbackLine string, f func() result) (res result) {
 	return f()
 }
 
+// -ro: every generated case uses a read-only (one-way alpha) endpoint; this is the stream C02 uses for
+// its endpoint half (Properties/C02 readOnly_refuses).
+var roOnly = flag.Bool("ro", false, "generate read-only endpoints only (C02 stream)")
+
 func main() {
 	hx.Main("C41", func(c *hx.Ctx) {
 		out := os.Getenv("VERIF_OUT")
@@ -1144,6 +1160,9 @@ func main() {
 			return
 		}
 		n := c.Size(2500, 40000)
+		if *roOnly {
+			n = c.Size(600, 8000)
+		}
 		const workers = 6
 		seeds := make([]uint64, n)
 		for i := range seeds {
